@@ -575,6 +575,22 @@ class Transcription(Task):
     def gen(self, rng):
         n = rng.choice([0, 1, 2, 3, 5, 8])
         ref = self._notes(rng, n)
+        if rng.random() < 0.3:
+            # decimal grid (multiples of 0.05 s): distances equal to the default tolerances are NOT exact in
+            # binary64, which is what the code's 4-decimal rounding of distances is for
+            ref = [[Fr(int(on * 16), 20), Fr(int(on * 16), 20) + Fr(max(1, int((off - on) * 16)), 20), m] for on, off, m in ref]
+            est = []
+            for on, off, m in ref:
+                if rng.random() < 0.15:
+                    continue
+                on2 = max(Fr(0), on + rng.choice([0, Fr(1, 20), -Fr(1, 20), Fr(1, 10)]))
+                off2 = max(on2 + Fr(1, 20), off + rng.choice([0, Fr(1, 20), -Fr(1, 20), (off - on) / 5, Fr(1, 4)]))
+                est.append([on2, off2, m + rng.choice([0, 0, Fr(1, 4), 12])])
+            out = {"ref": [[S(v) for v in x] for x in ref], "est": [[S(v) for v in x] for x in est],
+                   "lattice": "decimal"}
+            if rng.random() < 0.5:
+                out["kw"] = {"strict": True}
+            return out
         est = []
         for on, off, m in ref:
             u = rng.random()
@@ -640,6 +656,8 @@ class TranscriptionVelocity(Transcription):
         inp = Transcription.gen(self, rng)
         for s in ("ref", "est"):
             inp[s] = [n + [S(rng.randint(20, 120))] for n in inp[s]]
+        if "kw" not in inp and rng.random() < 0.3:
+            inp["kw"] = {"strict": True}
         return inp
 
     def gen_self(self, rng):
